@@ -25,6 +25,7 @@ CONSTANTS OneWayT,      \* BOOLEAN: the session comes from a one-way pattern
           SetBudget,    \* explicit nonce settings per behaviour
           RekeyBudget,  \* rekey operations per behaviour
           SmallBufs,    \* BOOLEAN: also try undersized buffers
+          PayBase,      \* ordinary payloads are PayBase + j bytes long
           BigBudget,    \* sends with a maximum-size (65535-16) and an oversized (+1) payload per behaviour
           EmitEdges     \* BOOLEAN
 
@@ -49,7 +50,7 @@ NonceChoices ==
   IF NonceMode = "top" THEN {NTop(2), NTop(1), NTop(0), NLo(0)}
   ELSE {NLo(0), NLo(1), NLo(2), <<"pow", 32, 0>>, <<"pow", 32, 1>>, <<"pow", 63, 0>>}
 
-PLenT(j) == 70 + j            \* longer than any public key
+PLenT(j) == PayBase + j
 PayT(id, j) == Lit((IF id = "I" THEN "ti" ELSE "tr") \o ToString(j), PLenT(j))
 BIG == 70000
 
